@@ -576,6 +576,8 @@ class Interp:
         if isinstance(v, (Obj, Cls, Fn, Mod)):
             if isinstance(v, Obj) and v.attrs.get("__falsy__") is not None:
                 return False
+            if isinstance(v, Obj) and v.attrs.get("__truth_unknown__") is not None:
+                return None  # an opaque input that may be None / '' / 0 as well as anything else
             if isinstance(v, Obj) and v.cls is not None:
                 # a class that defines __bool__ or __len__ decides its own truthiness (an empty BLOB is falsy)
                 for dunder in ("__bool__", "__len__"):
@@ -656,6 +658,11 @@ class Interp:
             # a generator function is evaluated eagerly: the values it yields, in order (laziness only interleaves
             # the same side effects with the consumer's; rules that care about that order do not inline it)
             frame.yields = []
+        memo_key = self._memo_key(fi, argv, kwargs)
+        if memo_key not in (None, "opaque"):
+            hit = self.__dict__.setdefault("_memo", {}).get(memo_key)
+            if hit is not None:
+                return hit
         self.depth += 1
         self.fn_stack.append(fi)
         try:
@@ -663,11 +670,55 @@ class Interp:
                 try:
                     self.exec_block(fi.node.body, frame)
                 except _Return as r:
-                    return self._gen_value(frame.yields) if is_gen else r.value
-            return self._gen_value(frame.yields) if is_gen else Const(None)
+                    return self._memoised(fi, memo_key, argv, kwargs, self._gen_value(frame.yields) if is_gen else r.value)
+            return self._memoised(fi, memo_key, argv, kwargs, self._gen_value(frame.yields) if is_gen else Const(None))
         finally:
             self.depth -= 1
             self.fn_stack.pop()
+
+    def _memo_key(self, fi, argv, kwargs):
+        """Functions under functools.lru_cache / cache return the result of the FIRST call whose arguments compared
+        (and hashed) equal.  None = not memoised, or aliasing is unobservable for these arguments (strings, identity-
+        compared objects); 'opaque' = arguments of unknown type: which earlier call answers is not known; otherwise a
+        key under Python's own equality of the constant arguments (0.0 == -0.0, 1 == 1.0 == True)."""
+        m = getattr(fi, "_memoised", None)
+        if m is None:
+            m = fi._memoised = any(d.split("(")[0].split(".")[-1] in ("lru_cache", "cache") for d in getattr(fi, "decorators", []))
+        if not m:
+            return None
+        key = [fi.qualname]
+        observable = False
+        for v in list(argv) + [x for _, x in sorted(kwargs.items())]:
+            if isinstance(v, Const):
+                if isinstance(v.v, (str, bytes)) or v.v is None:
+                    key.append(("c", type(v.v).__name__, v.v))
+                else:
+                    try:
+                        hash(v.v)
+                    except TypeError:
+                        return None
+                    key.append(("n", v.v))
+                    observable = True
+            elif isinstance(v, (Cls, Fn, Mod, Builtin, Foreign)) or (isinstance(v, Obj) and v.cls is not None and v.cls.find_method("__eq__") is None):
+                key.append(("id", id(v)))
+            elif isinstance(v, Term) and getattr(v, "pytype", None) == "str":
+                return None
+            else:
+                return "opaque"
+        return tuple(key) if observable else None
+
+    def _memoised(self, fi, memo_key, argv, kwargs, result):
+        if memo_key is None:
+            return result
+        if memo_key == "opaque":
+            # the cache may answer with the result computed for an earlier, equal-but-different argument: a result that
+            # is (or contains) the argument itself is not this call's argument any more
+            ins = [v for v in list(argv) + list(kwargs.values()) if not isinstance(v, (Const, Cls, Fn, Mod, Builtin, Foreign))]
+            if any(result is v or mentions(result, lambda t, v=v: t is v) for v in ins):
+                return Term("memo", Const(fi.qualname))
+            return result
+        self.__dict__.setdefault("_memo", {})[memo_key] = result
+        return result
 
     def exec_block(self, body, frame):
         for st in body:
@@ -680,6 +731,7 @@ class Interp:
         m = getattr(self, "st_" + type(st).__name__, None)
         if m is None:
             raise Undecided(f"unsupported statement {type(st).__name__} at line {st.lineno}")
+        self.cur_stmt = st
         return m(st, frame)
 
     def st_Expr(self, st, frame):
@@ -837,6 +889,10 @@ class Interp:
     st_AsyncFor = st_For
 
     def concrete_iter(self, v):
+        if isinstance(v, Const) and (v.v is None or isinstance(v.v, (bool, int, float))):
+            node = getattr(self, "cur_stmt", None)
+            self.emit("raise", node, value=Term("exc", "TypeError"))
+            raise _Raise(Term("exc", "TypeError"), node)
         if isinstance(v, Lst) and getattr(v, "is_gen", False):
             # a generator (expression or function) can be consumed once; a second traversal yields nothing
             if getattr(v, "consumed", False):
@@ -1143,6 +1199,11 @@ class Interp:
             return self.entity_value(ent, attr)
         if isinstance(base, Foreign):
             return Foreign(base.dotted + "." + attr)
+        if isinstance(base, Term) and base.op == "prop" and attr in ("fget", "fset"):
+            pf = base.args[0].ci.find_getter(base.args[1]) if attr == "fget" else base.args[0].ci.find_setter(base.args[1])
+            if pf is None:
+                raise Undecided(f"property {base.args[1]} has no {attr}")
+            return Fn(pf, None)
         if isinstance(base, Cls):
             ci = base.ci
             if attr == "__name__":
@@ -1162,6 +1223,8 @@ class Interp:
             m = ci.find_method(attr)
             if m is not None:
                 return Fn(m, base if m.kind == "classmethod" else None)
+            if ci.find_getter(attr) is not None:
+                return Term("prop", base, attr)  # the property object: only .fget / .fset are understood
             ca = ci.find_class_attr(attr)
             if ca is not None:
                 cv = self.p.const_value(ca[1].module, ca[0], ca[1])
